@@ -77,7 +77,8 @@ def c13(mode, x, again):
 
 
 # ------------------------------------------------------------------ C11
-ENTRY_STATES = ["absent", "empty_dir", "job_record_only", "zero_byte_result", "partial_result", "errored_result", "complete_result"]
+ENTRY_STATES = ["absent", "empty_dir", "job_record_only", "zero_byte_result", "partial_result", "errored_result", "complete_result",
+                "two_byte_result", "all_but_last_byte_result"]
 _TEMPLATES = {}
 
 
@@ -117,11 +118,12 @@ def make_entry(root, state, x):
     elif name == "job_record_only":
         os.makedirs(dst)
         shutil.copy(os.path.join(ok, "_job.pklz"), dst)
-    elif name in ("zero_byte_result", "partial_result"):
+    elif name in ("zero_byte_result", "partial_result", "two_byte_result", "all_but_last_byte_result"):
         shutil.copytree(ok, dst)
         data = open(os.path.join(ok, "_result.pklz"), "rb").read()
+        keep = {"zero_byte_result": 0, "partial_result": len(data) // 2, "two_byte_result": 2, "all_but_last_byte_result": len(data) - 1}[name]
         with open(os.path.join(dst, "_result.pklz"), "wb") as f:
-            f.write(b"" if name == "zero_byte_result" else data[: len(data) // 2])
+            f.write(data[:keep])
     elif name == "errored_result":
         shutil.copytree(err, dst)
     elif name == "complete_result":
@@ -347,7 +349,7 @@ class Crash(BaseException):
     """process death: not an Exception, so pydra's own handlers do not see it (as they would not see SIGKILL)"""
 
 
-def c12(event, phase, workflow, body_fails_later, x):
+def c12(event, phase, workflow, body_fails_later, x, cut=2, journal=False):
     """kill the 'process' at the event-th persistence event (phase: 0 before, 1 mid-write, 2 after),
     snapshot the cache root as it is at that instant, resubmit against the snapshot"""
     from crosshair.tracers import NoTracing
@@ -384,7 +386,8 @@ def c12(event, phase, workflow, body_fails_later, x):
                     import cloudpickle
                     with NoTracing():
                         data = cloudpickle.dumps(T.real(obj))
-                        fp.write(data[: len(data) // 2])
+                        n = [2, len(data) // 4, len(data) // 2, len(data) - 1][cut]       # how much of the file reached the disk
+                        fp.write(data[:n])
                         fp.flush()
                     die()
                 return real_dump(obj, fp)
@@ -403,8 +406,8 @@ def c12(event, phase, workflow, body_fails_later, x):
             die()
 
     R.FLAGS["on_body"] = body_event
-    task = (lambda: D.FlakyWf(x=x)) if workflow else (lambda: D.Flaky(x=x, tag=3))
-    want = (x * 10 + 1) * 10 + 2 if workflow else x * 10 + 3
+    task = (lambda: D.FlakyWf(x=x)) if workflow else ((lambda: D.Journal(x=x, tag=3)) if journal else (lambda: D.Flaky(x=x, tag=3)))
+    want = (x * 10 + 1) * 10 + 2 if workflow else (1 if journal else x * 10 + 3)
     J.save = save
     crashed = False
     try:
@@ -445,7 +448,8 @@ def c12(event, phase, workflow, body_fails_later, x):
         E.cleanup(d)
         E.cleanup(snap)
     T.reach()
-    desc = "crash at persistence event %d phase %s (%s)" % (event, ["before", "mid-write", "after"][phase], "workflow" if workflow else "task")
+    desc = "crash at persistence event %d phase %s%s (%s)" % (event, ["before", "mid-write", "after"][phase],
+                                                                " cut %d" % cut if phase == 1 else "", "workflow" if workflow else ("journal task" if journal else "task"))
     if body_fails_later:
         if err is None and second > 0:
             return "%s: resubmission with a failing body reported success %r" % (desc, out)
